@@ -64,6 +64,14 @@ def c14_scenarios(tier, seed):
             prop = {"body": [op("go", n=8, text="quiet", ms=30 if tier == "quick" else 300, body=[METHODS[a](), METHODS[b]()]), draw(g("Bool"), "b")]}
             out.append(scenario("c14-race-%s-%s-%s" % (a, b, v), prop, dict(base, seed=rng.randrange(1, 1 << 64), v=v, checks=3),
                                 tag={"methods": a + "+" + b, "goroutines": 8, "verbose": v}))
+        # the same on a *T nothing has been done with yet (fuzz target, minimization attempts and final replay of a failing property),
+        # also with -rapid.log (rapid's own eager logger)
+        lg = rng.choice(["true", "false"])
+        body = [op("go", n=8, text="quiet", ms=10 if tier == "quick" else 100, body=[METHODS[a](), METHODS[b]()]), draw(g("Uint8"), "x", "x")]
+        out.append(scenario("c14-race-fresh-%s-%s" % (a, b), {"body": body + [iff("x", "ge", 3, [op("errorf", text="nf")])]},
+                            dict(base, seed=rng.randrange(1, 1 << 64), v=rng.choice(["true", "false"]), log=lg, checks=5, shrinktime="30s"),
+                            runs=[{"entry": "fuzz", "fuzz": ["", "00" * 16, "ff" * 16]}, {"entry": "check"}],
+                            tag={"methods": a + "+" + b, "goroutines": 8, "verbose": lg, "fresh": True}))
     return out
 
 
@@ -190,6 +198,9 @@ def c15_gens(rng, rnd):
         "make_struct": g("Make", type="struct"),
         "make_map": g("Make", type="map"),
         "make_ptr": g("Make", type="ptr"),
+        "make_nestedptr": g("Make", type="nestedptr"),
+        **{"make_nested%d" % i: g("Make", type="nested%d" % i) for i in range(12)},
+        "make_tree": g("Make", type="tree"),
         "distinct": g("SliceOfNDistinct", elem=IntRange(0, 6), minLen=0, maxLen=6),
         "distinct_small": g("SliceOfDistinct", elem=IntRange(0, 3)),
         "mapof": g("MapOfN", key=IntRange(0, 5), val=g("Bool"), minLen=0, maxLen=5),
@@ -213,6 +224,10 @@ def c15_scenarios(tier, seed):
                     continue
                 out.append({"id": "c15-%s-%s-%d" % (name, pairing, rnd), "gen": gens[name], "k": 6, "iters": 8 if tier == "quick" else 30, "rounds": rounds,
                             "pairing": pairing, "seed": rng.randrange(1, 1 << 30)})
+        # checks that each derive their own generator from the shared one (one more Filter on a chain of 1..8): deriving must not touch the shared one
+        for n in ((1, 2, 3, 4, 5, 7) if tier == "quick" else range(0, 17)):
+            out.append({"id": "c15-filterchain%d-derive-%d" % (n, rnd), "gen": g("FilterChain", minLen=n), "k": 4, "iters": 8 if tier == "quick" else 30,
+                        "rounds": rounds, "pairing": "derive", "seed": rng.randrange(1, 1 << 30)})
         # deterministic interleaving: the first check is paused in its j-th user callback while the others run to completion
         for name in ("distinct", "distinct_small", "mapvalues", "filter", "custom", "map"):
             for j in (1, 2, 3, 5):
